@@ -409,7 +409,7 @@ def _idents(text: str) -> List[str]:
 @rule(
     "L10",
     "ALIAS-SAFE: `X = F(..X..)` hands X to the procedure both as an argument and as the result (by reference); a procedure standing in for a function never reads an input parameter of the result's type after it may have written the result",
-    ["C20", "C03", "C01"],
+    ["C20", "C03", "C01", "C04"],
     floor=1,
     default_props=["C01"],
 )
@@ -529,6 +529,9 @@ def l10(ctx: Ctx):
 
         walk(blocks, False)
         props_ = ["C20", "C03", "C01"] if name in ("ecb_instr", "ecb_string") else ["C03", "C01"] if name in ("ecb_val", "ecb_str") else ["C01"]
+        # a function that reads a device record (POINT, JOYSTK, BUTTON): its operands no longer reach the device code
+        if any(pt[1] not in ("num", "str", "int", "real", "byte", "bool") for pt in p.params):
+            props_ = props_ + ["C04"]
         ok = not hits
         ctx.ob(
             f"{name}",
@@ -561,10 +564,27 @@ def l11(ctx: Ctx):
 # L12 LIB-QUOTES
 
 
-@rule("L12", "LIB-QUOTES: every line of the bundled library has balanced double quotes - the bank's patterns decide `inside a string literal` by counting the quotes that follow a match up to the end of the text, comments included", ["C13"], floor=50)
+@rule("L12", "LIB-QUOTES: no line of the bundled library misleads the bank's quote counting: a line with an odd number of double quotes carries no RUN and no placeholder (and, where a pattern is applied to more than one line at a time, no line has an odd number at all)", ["C13"], floor=50)
 def l12(ctx: Ctx):
+    from .peg import fold_module
+    from .rules_bank import _line_valued, _pattern_uses
+
     L = b09lib(ctx)
+    env_pb = fold_module(ctx, PROCBANK_REL)
+    # the reach of the quote counting: one line (every guarded pattern is applied line by line) or the whole text
+    whole_text = []
+    for nm in ("INVOKED_PROCEDURE_NAMES", "STR_STORAGE_TAG"):
+        uses = _pattern_uses(ctx, nm)
+        ctx.need(uses, f"{nm}:uses", f"no application of `{nm}` found in procbank.py")
+        if not all(_line_valued(fn_, subj, env_pb) for fn_, _, subj in uses):
+            whole_text.append(nm)
     for name, p in sorted(L.procs.items()):
-        bad = [(ln, raw) for ln, raw in p.lines if raw.count('"') % 2 == 1]
+        odd = [(ln, raw) for ln, raw in p.lines if raw.count('"') % 2 == 1]
+        if whole_text:
+            bad = odd
+            why = f"`{whole_text[0]}` counts quotes across lines: every RUN / `STRING<<>>` placeholder in front of this line (in the whole bundle) is taken to be inside a string literal - placeholders stay unreplaced, dependencies are missed"
+        else:
+            bad = [(ln, raw) for ln, raw in odd if re.search(r"(?i)string<<>>|\brun\s+\w", raw)]
+            why = "the RUN / `STRING<<>>` placeholder on the same line is taken to be inside a string literal (or a quoted one for real): it stays unreplaced / the dependency is missed"
         ok = not bad
-        ctx.ob(name, ok, "" if ok else f"procedure {name}, line {bad[0][0]}: `{bad[0][1].strip()[:70]}` has an odd number of double quotes: every RUN and every `STRING<<>>` placeholder in front of it (in the whole bundle) is then taken to be inside a string literal - placeholders stay unreplaced, dependencies are missed", file=LIB_REL, line=bad[0][0] if bad else p.line)
+        ctx.ob(name, ok, "" if ok else f"procedure {name}, line {bad[0][0]}: `{bad[0][1].strip()[:70]}` has an odd number of double quotes; {why}", file=LIB_REL, line=bad[0][0] if bad else p.line)
